@@ -167,6 +167,12 @@ func runFaultCase(r *Run, fc faultCase, tag string) {
 			return
 		}
 	}
+	if after := rig.dump(fc.Op.ID); (fc.Abs > 0 || fc.Idle > 0) && (res == "ok" || strings.HasPrefix(res, "tok ") || strings.HasPrefix(res, "auth ")) &&
+		after != "absent" && strings.HasSuffix(after, "ttl=-") {
+		r.Violate(tag+" a store method reported success but left the session on the server without an expiry although session timeouts are configured (nothing will ever end that session)",
+			map[string]any{"case": fc, "server_before": before, "server_after": after})
+		return
+	}
 	if fc.Op.Kind == "remove" && res == "ok" && rig.dump(fc.Op.ID) != "absent" {
 		r.Violate(tag+" RemoveSession reported success but the session is still on the server", map[string]any{"case": fc, "server_after": rig.dump(fc.Op.ID)})
 		return
